@@ -104,8 +104,10 @@ class Values:
         p = (pname or "").lower()
         r = self.rng
         if p in ("compound", "compoundstring") and fn not in ("GetCompoundDataNISTByName",):
-            pool = ["H2O", "Ca5(PO4)3OH", "C6H12O6", "(NH4)2SO4", "Fe0.5Ni.25O1.25", "UO2(NO3)2(H2O)6", "Es2O3", "Pb", "LaB6", "SiO2", "(H2O)", "Mg(O(OH)2)3"]
-            bad = [None, "", "Hx", "h2o", "H2O ", "(H2O", "H2O)", "2H", "Rf", "H0", "He2..3", "Water", "()", "H2O\x01", "\xc3\xa9", "(SiO2)0", "Ca(OH)0", "(H2O)0.0",
+            pool = ["H2O", "Ca5(PO4)3OH", "C6H12O6", "(NH4)2SO4", "Fe0.5Ni.25O1.25", "UO2(NO3)2(H2O)6", "Es2O3", "Pb", "LaB6", "SiO2", "(H2O)", "Mg(O(OH)2)3",
+                    "Ca5.522(PO4.48)3OH", "Fe0.947O", "YBa2Cu3O6.93", "H0.5O0.25"]      # total atom counts that are not integers
+            bad = ["RfDb", "Rf2(SgO4)3", "DbBhO2", "Xx2Rf",                             # more than one reason to reject
+                   None, "", "Hx", "h2o", "H2O ", "(H2O", "H2O)", "2H", "Rf", "H0", "He2..3", "Water", "()", "H2O\x01", "\xc3\xa9", "(SiO2)0", "Ca(OH)0", "(H2O)0.0",
                    "H.", "Ca.O", "H2(SO4).", "Ca5(PO4)0F", "Si" * 150, "(" * 40 + "H" + ")" * 40]
             out = r.sample(pool, min(len(pool), max(1, n // 3))) + r.sample(bad, min(len(bad), max(1, n // 3)))
             for _ in range(max(1, n // 4)):     # single-character mutants of valid formulas
@@ -113,6 +115,8 @@ class Values:
                 k = r.randrange(len(f) + 1)
                 ch = r.choice("()0123456789..AaHOx ")
                 out.append(r.choice([f[:k] + ch + f[k:], f[:k] + f[k + 1:], f[:k] + ch + f[k + 1:]]))
+            for _ in range(max(1, n // 3)):     # generated well-formed formulas over a small palette: elements recur inside and outside groups
+                out.append(formulas.random_formula(r))
             if self.nist_names:
                 out += r.sample(self.nist_names, min(len(self.nist_names), max(1, n // 3)))
             return out
